@@ -98,10 +98,33 @@ func runC02(c *core.Ctx) {
 			}
 		}
 		c.Need(l != nil, "confirmEvents passes a filter closure to dfsSubgraph")
-		ev := l.Param(0)
+		ev, frame := l.Param(0), f.Param(0)
 		cb := f.ParamNamed("onEventConfirmed")
 		if cb == nil {
 			cb = f.Param(2)
+		}
+		// a closure that only forwards to a method: the method is the filter, and its parameters stand for
+		// the visited event, the block's frame and the callback that the closure hands over
+		if fw, ok := c02Forwarding(l); ok && fw.G.Type.Params != nil {
+			var ev2, frame2, cb2 *types.Var
+			for _, fl := range fw.G.Type.Params.List {
+				for _, nm := range fl.Names {
+					pv, _ := fw.G.Info().Defs[nm].(*types.Var)
+					_, cv, bound := fw.bindVar(pv)
+					switch {
+					case !bound || cv == nil:
+					case cv == ev:
+						ev2 = pv
+					case cv == frame:
+						frame2 = pv
+					case cv == cb:
+						cb2 = pv
+					}
+				}
+			}
+			if ev2 != nil {
+				l, ev, frame, cb = fw.G, ev2, frame2, cb2
+			}
 		}
 		deliver := l.CallsMatching(func(cs *core.CallSite) bool { return cs.Callee == types.Object(cb) })
 		c.ExpectAtLeast("delivery sites", len(deliver), 1)
@@ -109,7 +132,7 @@ func runC02(c *core.Ctx) {
 		gets := l.CallsTo("abft.Store.GetEventConfirmedOn")
 		c.Need(len(marks) == 1 && len(gets) == 1, "the closure reads and writes the confirmed mark once each")
 		isEvID := func(e ast.Expr) bool { return ev != nil && c01MethodOn(l, e, "ID") == ev }
-		c.Check(isEvID(marks[0].Call.Args[0]) && isEvID(gets[0].Call.Args[0]) && canonVar(l, varOf(l, marks[0].Call.Args[1])) == f.Param(0), "mark is read and written for the visited event with the block's frame", "provenance", marks[0].Pos(), "Get/SetEventConfirmedOn(e.ID(), frame)", "the confirmed mark is not keyed by the visited event or not set to the block's frame")
+		c.Check(isEvID(marks[0].Call.Args[0]) && isEvID(gets[0].Call.Args[0]) && frame != nil && canonVar(l, varOf(l, marks[0].Call.Args[1])) == frame, "mark is read and written for the visited event with the block's frame", "provenance", marks[0].Pos(), "Get/SetEventConfirmedOn(e.ID(), frame)", "the confirmed mark is not keyed by the visited event or not set to the block's frame")
 		// the value read
 		var dv *types.Var
 		for _, a := range assignments(l) {
@@ -117,7 +140,8 @@ func runC02(c *core.Ctx) {
 				dv = varOf(l, a.LHS)
 			}
 		}
-		notYet := func(ft core.Fact) bool {
+		// (the test may be kept in a boolean local: `seen := mark != 0; if seen {…}`)
+		notYet := c01FactThrough(l, func(ft core.Fact) bool {
 			lc, k := core.NormLinCmp(l.Info(), ft, func(e ast.Expr) string {
 				if dv != nil && varOf(l, e) == dv {
 					return "mark"
@@ -136,7 +160,7 @@ func runC02(c *core.Ctx) {
 				unsigned = true
 			}
 			return lc.Equal(core.ParseLinCmp("mark == 0")) || (unsigned && lc.Equal(core.ParseLinCmp("mark <= 0")))
-		}
+		})
 		for _, d := range deliver {
 			ok1, wit := l.GuardedBy(d.Pt, notYet)
 			c.Check(ok1, "event delivered only if not yet confirmed", "T4 GuardedBy", d.Pos(), "the application callback is reached only on the mark == 0 edge", "an event already delivered by an earlier block (or earlier in this walk) can be delivered again: "+l.DescribePath(wit))
@@ -155,8 +179,30 @@ func runC02(c *core.Ctx) {
 	})
 
 	c.Clause("C02.walk", func() {
-		f := c.Fn("abft.Orderer.dfsSubgraph")
-		filter := f.Param(1)
+		anchor := c.Fn("abft.Orderer.dfsSubgraph")
+		f, filter := anchor, anchor.Param(1)
+		calledIn := func(g *core.FuncInfo, v *types.Var) bool {
+			return v != nil && len(g.CallsMatching(func(cs *core.CallSite) bool { return cs.Callee == types.Object(v) })) > 0
+		}
+		if !calledIn(anchor, filter) {
+			// the step of the walk (load, filter, push the parents) may be a helper that is handed the filter
+			// and is called in every iteration of the walk
+			for _, w := range c01HelperViews(anchor) {
+				if w.At == nil || w.G.Type.Params == nil {
+					continue
+				}
+				for _, fl := range w.G.Type.Params.List {
+					for _, nm := range fl.Names {
+						pv, _ := w.G.Info().Defs[nm].(*types.Var)
+						if _, cv, bound := w.bindVar(pv); bound && cv != nil && cv == anchor.Param(1) && calledIn(w.G, pv) && f == anchor {
+							if every, _ := c03EveryIterationCalls(anchor, w.At); every {
+								f, filter = w.G, pv
+							}
+						}
+					}
+				}
+			}
+		}
 		fc := f.CallsMatching(func(cs *core.CallSite) bool { return cs.Callee == types.Object(filter) })
 		push := f.CallsMatching(func(cs *core.CallSite) bool { return methodNamed(cs.Name, "Push") })
 		c.Need(len(fc) == 1 && len(push) >= 1, "dfsSubgraph filters each event and pushes parents")
@@ -177,24 +223,48 @@ func runC02(c *core.Ctx) {
 			// what is pushed are the filtered event's parents: the push is made once per element of an
 			// iteration over event.Parents() (ranged or indexed, possibly through a local)
 			okP := false
-			if it, isIt := core.IterationOf(f, enclosingLoop(f, ps.Pos()), c01Resolver(f)); isIt && it.FromZero && it.Coll != nil && len(ps.Call.Args) == 1 {
+			if it, isIt := c01IterationOf(f, enclosingLoop(f, ps.Pos())); isIt && it.FromZero && it.Coll != nil && len(ps.Call.Args) == 1 {
 				okP = c01MethodOn(f, it.Coll, "Parents") == filtered && filtered != nil && it.IsElem(ps.Call.Args[0], c01Resolver(f))
 			}
 			c.Check(okP, "the walk follows the parents relation", "provenance", ps.Pos(), "pushes each element of event.Parents() of the filtered event", "the walk does not push the event's parents")
 		}
 		// a missing event is an error
-		get := f.CallsTo("abft.EventSource.GetEvent")
+		get := anchor.CallsTo("abft.EventSource.GetEvent")
+		if f != anchor {
+			get = append(get, f.CallsTo("abft.EventSource.GetEvent")...)
+		}
 		c.Check(len(get) == 1, "events are loaded from the event source", "provenance", f.Pos(), "input.GetEvent(walk)", "dfsSubgraph does not load events from the event source")
 	})
 
 	c.Clause("C02.who", func() {
 		n := 0
+		// the confirmation walk's filter: a closure of confirmEvents, or the method such a closure only
+		// forwards to when nothing else calls that method
+		owner := map[*core.FuncInfo]bool{}
+		if ce := p.Func("abft.Lachesis.confirmEvents"); ce != nil {
+			for _, lit := range allLits(ce) {
+				owner[lit] = true
+				if fw, ok := c02Forwarding(lit); ok {
+					only := true
+					for _, g := range p.Funcs() {
+						for _, cs := range g.Calls() {
+							if cs.Callee == types.Object(fw.G.Obj) && g != lit {
+								only = false
+							}
+						}
+					}
+					if only {
+						owner[fw.G] = true
+					}
+				}
+			}
+		}
 		for _, g := range p.FuncsInPkg("abft") {
 			all := append([]*core.FuncInfo{g}, allLits(g)...)
 			for _, h := range all {
 				for _, cs := range h.CallsTo("abft.Store.SetEventConfirmedOn") {
 					n++
-					okOwner := h.Parent != nil && h.Parent.Name == "abft.Lachesis.confirmEvents"
+					okOwner := owner[h]
 					c.Check(okOwner, "confirmed mark written in "+short(h.Name), "T6 WhoMayCall", cs.Pos(), "the confirmation walk's filter", "the confirmed mark is written outside the confirmation walk")
 				}
 			}
@@ -247,10 +317,20 @@ func runC02(c *core.Ctx) {
 		// the decided pair is applied as is
 		for _, name := range []string{"abft.Orderer.handleElection", "abft.Orderer.bootstrapElection"} {
 			f := c.Fn(name)
-			for _, cs := range f.CallsTo("abft.Orderer.onFrameDecided") {
-				_, p0 := fieldPath(f, cs.Call.Args[0])
-				_, p1 := fieldPath(f, cs.Call.Args[1])
-				ok := len(p0) == 1 && p0[0] == "abft/election.Res.Frame" && len(p1) == 1 && p1[0] == "abft/election.Res.Atropos"
+			// the decision may be applied in the function itself or in a helper it hands the result to
+			for _, e := range c01Effects(f, func(cs *core.CallSite) bool { return cs.Name == "abft.Orderer.onFrameDecided" }) {
+				if e.G != f && e.At.Name == "abft.Orderer.bootstrapElection" {
+					continue // judged under its own name
+				}
+				cs, g := e.Eff, e.G
+				ok := len(cs.Call.Args) == 2
+				if ok {
+					r0, p0 := fieldPath(g, cs.Call.Args[0])
+					r1, p1 := fieldPath(g, cs.Call.Args[1])
+					ok = len(p0) == 1 && p0[0] == "abft/election.Res.Frame" && len(p1) == 1 && p1[0] == "abft/election.Res.Atropos"
+					// frame and Atropos are taken from one and the same result
+					ok = ok && varOf(g, r0) != nil && canonVar(g, varOf(g, r0)) == canonVar(g, varOf(g, r1))
+				}
 				c.Check(ok, short(name)+" applies the election's (frame, atropos)", "provenance", cs.Pos(), "onFrameDecided(decided.Frame, decided.Atropos)", "the applied frame/Atropos are not the election's result")
 			}
 		}
